@@ -150,6 +150,33 @@ def correspondence(rep, ctx):
             if abs(F(a[k]) - F(b[k])) > Fraction(5, 10**14) * max(F(a[k]), F(b[k])):
                 fail(desc, f"Inventory gives {k}: {a[k]!r}, InventoryHP gives {b[k]!r}")
                 break
+    # amounts spanning many orders of magnitude, given in a large unit and as the 1e12-times larger numbers in the small one:
+    # the fractions are the input shares, the same in both classes and whichever unit was used
+    for k_ in range(20 if thorough else 6):
+        picks = r.sample([i for i in range(view.n) if view.rate[i] != 0], 4)
+        amts = [1.0e-6, 7.3219046e-12, 4.0e-16, 2.5e-13]
+        r.shuffle(amts)
+        big, small = r.choice([("mol", "pmol"), ("g", "pg"), ("Bq", "pBq")])
+        reader = {"mol": "mole_fractions", "g": "mass_fractions", "Bq": "activity_fractions"}[big]
+        names_ = [view.names[i] for i in picks]
+        tot_ = sum(Fraction(repr(a)) for a in amts)
+        res = {}
+        for C in (rd.Inventory, rd.InventoryHP):
+            for unit_, scale_ in ((big, 1.0), (small, 1.0e12)):
+                cont = {n_: a * scale_ for n_, a in zip(names_, amts)}
+                desc = f"{C.__name__}({cont!r}, {unit_!r}).{reader}()"
+                rep.case(("magnitudes", k_, C.__name__, unit_))
+                gen._count("fractions:spanning-magnitudes")
+                try:
+                    fr_ = getattr(C(dict(cont), unit_), reader)()
+                    res[(C.__name__, unit_)] = fr_
+                    for n_, a in zip(names_, amts):
+                        want = Fraction(repr(a)) / tot_
+                        if abs(F(fr_[n_]) - want) > Fraction(1, 10**12) * want:
+                            fail(desc, f"{n_}: {fr_[n_]!r}, the input share is {float(want)!r}")
+                            break
+                except Exception as e:  # noqa: BLE001
+                    fail(desc, f"raised {type(e).__name__}: {e}")
     # fractions of an inventory used, changed in place and used again == those of a fresh inventory with the same amounts
     from decaylib import mutated_object_block
     bad += mutated_object_block(rep, ctx, "c14/mutated-object", hp_too=True, nseq=(24 if thorough else 6))
